@@ -249,6 +249,17 @@ def run(ctx, rep):
                 rep.ob("undefined-function", "is_undefined:closure", ok, f"the closure is exactly sym.is_undefined(): {why}", c.file, c.line)
             except decide.NotLoopFree as e:
                 rep.ob("undefined-function", "is_undefined:closure", False, str(e), c.file, c.line)
+    # ---- references are recorded under their own symbol id -----------------------------------------------------------------
+    rep.rule("reference-index", "in resolve_symbols every use of the per-chunk enumerate index goes through start_symbol_offset + index (the symbol id an undefined or weak reference is recorded under is the reference's own)")
+    import chunkidx
+    r_ = chunkidx.analyse(F, P)
+    if r_ is None:
+        rep.lost("reference-index", "libwild::resolution::resolve_symbols")
+    else:
+        rep.ob("reference-index", "site", len(r_["uses"]) >= 2, f"{len(r_['uses'])} use(s) of the enumerate index examined", "libwild/src/resolution.rs", 0)
+        for c_, line, kind, ok, detail in r_["uses"]:
+            rep.ob("reference-index", f"absolute-index:{kind}", ok or r_["relative"] is False, detail + ("" if ok else ": in an object with more than 5000 symbols an undefined or weak reference in a later chunk "
+                   "is recorded under the id of an unrelated symbol - a non-weak undefined reference is then not reported and a bound reference can be reset to undefined"), c_.file, line)
     rep.assume("the fixpoint over arbitrary sets of inputs and the position of definitions on the command line are input data: not decided")
 
 
